@@ -313,6 +313,48 @@ pub fn run(ctx: &Ctx, rep: &mut Report) {
             check_response_for(&m, acc)
         },
     );
+    // every value of a No-Response option (RFC 7967) on CON and NON requests:
+    // the option asks the server not to SEND certain responses, preparing one
+    // is unaffected
+    let mut nr = Vec::new();
+    for mtype in 0..4u8 {
+        for v in 0..=257u16 {
+            let value = match v {
+                256 => vec![],
+                257 => vec![0x1A, 0x00],
+                x => vec![x as u8],
+            };
+            nr.push(MsgSpec {
+                version: 1,
+                mtype,
+                token: vec![v as u8, 7],
+                code: 0x01,
+                mid: 0x7000 + v,
+                options: vec![(11, Blob::Lit(b"r".to_vec())), (258, Blob::Lit(value))],
+                payload: Blob::Lit(vec![]),
+            });
+        }
+    }
+    // CoAP ping and other bare requests
+    for mtype in 0..4u8 {
+        for code in [0u8, 1, 2, 0x45, 0xFF] {
+            for tkl in [0usize, 1, 8] {
+                nr.push(MsgSpec { version: 1, mtype, token: vec![3; tkl], code, mid: 1, options: vec![], payload: Blob::Lit(vec![]) });
+            }
+        }
+    }
+    run_list(
+        ctx,
+        rep,
+        "no-response-option-values-and-bare-requests",
+        "requests of all four types carrying a No-Response option with every one-byte value, the empty value and a two-byte value; bare requests (no token / options / payload) with codes 0.00, 0.01, 0.02, 2.05, 7.31",
+        true,
+        nr,
+        |_ctx, s: &MsgSpec, acc| {
+            acc.nontrivial_enum();
+            check_response_for(&s.msg(), acc)
+        },
+    );
     let nstat = reg::statuses().len() as u8;
     let n = ctx.cases(100_000, 1_500_000);
     run_prop(
@@ -326,7 +368,12 @@ pub fn run(ctx: &Ctx, rep: &mut Report) {
                 msg_spec(3, 40, 40),
                 prop_oneof![1 => Just(None), 6 => (0..=nstat).prop_map(Some)],
                 any::<u8>(),
-                "\\PC{0,20}",
+                // diagnostic texts from empty to longer than any datagram
+                prop_oneof![
+                    6 => "\\PC{0,20}",
+                    1 => (1200usize..1400).prop_map(|n| "x".repeat(n)),
+                    1 => (proptest::sample::select(vec![255usize, 256, 1023, 1024, 1270, 1275, 1280, 1281, 3000, 70000])).prop_map(|n| "é".repeat(n / 2)),
+                ],
                 proptest::option::of((
                     option_list(3, 30),
                     proptest::option::of(prop_oneof![Just(0u16), Just(50), Just(60), any::<u16>()]),
